@@ -219,16 +219,16 @@ type Obs struct {
 	Case       int    `json:"case"`
 	Stage      string `json:"stage"` // where the flow stopped: encode-request | handler | decode-response | done | panic
 	Err        string `json:"err,omitempty"`
-	Called     bool   `json:"called"`              // the endpoint (user code) ran
-	PayloadIn  string `json:"payload_in"`          // dump of the payload the client sent
-	PayloadGot string `json:"payload_got"`         // dump of what the endpoint received
-	ReqMsg     string `json:"request_message"`     // dump of the (stand-in) protobuf request message
-	MD         string `json:"request_metadata"`    // request metadata
-	ResultIn   string `json:"result_in"`           // dump of the result the endpoint returned
-	RespMsg    string `json:"response_message"`    // dump of the (stand-in) protobuf response message
-	ResultGot  string `json:"result_got"`          // dump of what the client decoded
-	Hdr        string `json:"header_metadata"`     // response header metadata
-	Trlr       string `json:"trailer_metadata"`    // response trailer metadata
+	Called     bool   `json:"called"`           // the endpoint (user code) ran
+	PayloadIn  string `json:"payload_in"`       // dump of the payload the client sent
+	PayloadGot string `json:"payload_got"`      // dump of what the endpoint received
+	ReqMsg     string `json:"request_message"`  // dump of the (stand-in) protobuf request message
+	MD         string `json:"request_metadata"` // request metadata
+	ResultIn   string `json:"result_in"`        // dump of the result the endpoint returned
+	RespMsg    string `json:"response_message"` // dump of the (stand-in) protobuf response message
+	ResultGot  string `json:"result_got"`       // dump of what the client decoded
+	Hdr        string `json:"header_metadata"`  // response header metadata
+	Trlr       string `json:"trailer_metadata"` // response trailer metadata
 }
 
 func mdString(md metadata.MD) string {
